@@ -189,11 +189,20 @@ fn subjects(rng: &mut Rng) -> Vec<Subject> {
     // --- valve: three positions, Enforce and Try variants
     // `cts`: a silent attempt is one in which the server still issues its challenge and then falls silent on the
     // request that carries it (a timeout-class failure of the same unit, at the second message of the attempt)
-    for (try_mode, cts) in [(false, false), (true, false), (false, true), (true, true)] {
+    // mode 2: a silent attempt is one in which only the first fragment of a two-fragment split reply arrives (the
+    // wait for the second one times out: a timeout-class failure of the attempt, not a malformed reply)
+    for (try_mode, mode) in [(false, 0u8), (true, 0), (false, 1), (true, 1), (false, 2), (true, 2)] {
+        let cts = mode == 1;
         let engine = Engine::new(440);
         let b = build(rng, &engine, 440, 3, 3, false);
         let st = b.state.clone();
         let (i, p, ru) = (vec![st.info_message()], vec![st.players_message()], vec![st.rules_message()]);
+        let partial: [Vec<Vec<u8>>; 3] = [&i[0], &p[0], &ru[0]].map(|m| {
+            let mut f = crate::models::valve::encode(rng, m, crate::models::valve::Encoding::SourceSplit(2), false, None);
+            f.truncate(1);
+            f
+        });
+        let (partial1, partial2) = (partial.clone(), partial.clone());
         let toggle = if try_mode { GatherToggle::Try } else { GatherToggle::Enforce };
         let gs = GatheringSettings { players: toggle, rules: toggle, check_app_id: true };
         // per position two replies that fail decoding: a truncated reply of the right kind, and (info) a reply of
@@ -206,11 +215,13 @@ fn subjects(rng: &mut Rng) -> Vec<Subject> {
         ];
         let (i2, p2, ru2, mal2) = (i.clone(), p.clone(), ru.clone(), malformed.clone());
         v.push(Subject {
-            name: match (try_mode, cts) {
-                (false, false) => "valve(enforce)",
-                (true, false) => "valve(try)",
-                (false, true) => "valve(enforce,challenge-then-silent)",
-                (true, true) => "valve(try,challenge-then-silent)",
+            name: match (try_mode, mode) {
+                (false, 0) => "valve(enforce)",
+                (true, 0) => "valve(try)",
+                (false, 1) => "valve(enforce,challenge-then-silent)",
+                (true, 1) => "valve(try,challenge-then-silent)",
+                (false, _) => "valve(enforce,first-fragment-then-silent)",
+                (true, _) => "valve(try,first-fragment-then-silent)",
             },
             positions: 3,
             unit: false,
@@ -222,7 +233,7 @@ fn subjects(rng: &mut Rng) -> Vec<Subject> {
                         .iter()
                         .map(|a| match a {
                             Att::Valid => Behaviour::Answer(valid[pos].clone()),
-                            Att::Silent => if cts { Behaviour::ChallengeThenSilent } else { Behaviour::Silent },
+                            Att::Silent => if cts { Behaviour::ChallengeThenSilent } else if mode == 2 { Behaviour::Answer(partial1[pos].clone()) } else { Behaviour::Silent },
                             Att::SendFails => Behaviour::SendFails,
                             Att::Malformed => Behaviour::Answer(vec![mal2[pos][0].clone()]),
                         })
@@ -247,7 +258,7 @@ fn subjects(rng: &mut Rng) -> Vec<Subject> {
                     .iter()
                     .map(|a| match a {
                         Att::Valid => Behaviour::Answer(valid[pos].clone()),
-                        Att::Silent => if cts { Behaviour::ChallengeThenSilent } else { Behaviour::Silent },
+                        Att::Silent => if cts { Behaviour::ChallengeThenSilent } else if mode == 2 { Behaviour::Answer(partial2[pos].clone()) } else { Behaviour::Silent },
                         Att::SendFails => Behaviour::SendFails,
                         Att::Malformed => Behaviour::Answer(vec![malformed[pos][alt % 2].clone()]),
                     })
@@ -439,7 +450,7 @@ impl Check for C10 {
     fn id(&self) -> &'static str { "C10" }
     fn level(&self) -> &'static str { "fault_enumeration" }
     fn rule(&self) -> String {
-        "for every retrying protocol (Valve info/players/rules with Enforce and Try, GameSpy 1, 2, 3 and JC2-MP (handshake / data / alternating within the handshake-plus-request unit, whose wire sequence must be whole units), Quake 1/2/3, Unreal 2 info/rules/players with Enforce and Try, Java, Bedrock, legacy x3, Mindustry, FFOW) and every request position: all per-attempt outcome vectors over {silent, send-fails, malformed, valid} of length r+2 for r = 0..2 (quick) / 0..3 (thorough) injected at that position, other positions answered validly. From the transport log and the result: attempts at the position = min(index of first non-timeout outcome + 1, r+1); none after a malformed reply; first non-timeout outcome valid => result equals the fault-free result; malformed => failure of a non-timeout kind (or the Try section absent); all r+1 timeouts => PacketReceive/PacketSend (or the Try section absent). For Valve and Unreal 2 also every combination of 0..r timeouts at two or three positions of one query (the retry count is per request). non-trivial = vectors containing at least one fault; distinct by (protocol, position, r, vector)".into()
+        "for every retrying protocol (Valve info/players/rules with Enforce and Try - each also with 'silent' meaning that the server issues its challenge and then ignores the request carrying it, and with 'silent' meaning that only the first fragment of a split reply arrives -, GameSpy 1, 2, 3 and JC2-MP (handshake / data / alternating within the handshake-plus-request unit, whose wire sequence must be whole units), Quake 1/2/3, Unreal 2 info/rules/players with Enforce and Try, Java, Bedrock, legacy x3, Mindustry, FFOW) and every request position: all per-attempt outcome vectors over {silent, send-fails, malformed, valid} of length r+2 for r = 0..2 (quick) / 0..3 (thorough) injected at that position, other positions answered validly. From the transport log and the result: attempts at the position = min(index of first non-timeout outcome + 1, r+1); none after a malformed reply; first non-timeout outcome valid => result equals the fault-free result; malformed => failure of a non-timeout kind (or the Try section absent); all r+1 timeouts => PacketReceive/PacketSend (or the Try section absent). For Valve and Unreal 2 also every combination of 0..r timeouts at two or three positions of one query (the retry count is per request). non-trivial = vectors containing at least one fault; distinct by (protocol, position, r, vector)".into()
     }
     fn assumptions(&self) -> Vec<String> {
         vec![
